@@ -4,7 +4,9 @@
 `model.CheckDuplicates(hosts, bind, knownHosts)` (pilot/pkg/model/gateway.go) is asked once per TLS server of a
 gateway port (by `mergeGateways`, with the server's SNI hosts) and once per SNI route of a passthrough server (by
 `buildGatewayNetworkFiltersFromTLSRoutes`); what it accepts becomes a filter chain whose match is `server_names =
-hosts` on the listener `bind:port`.  The table is a Go map; the model keeps it as the list of (bind, host) pairs.
+hosts` on the listener `bind:port`.  The Go table is a map host -> first bind seen, plus composite keys for further
+binds of a host (so that callers that pre-fill it as host -> bind keep working); what it remembers is a set of
+(bind, host) pairs, which is how the model keeps it (the harness prints the Go map as those pairs).
 
 `checkDuplicates`        the repaired function (table keyed by bind AND host)
 `checkDuplicatesOld`     the function before the repair (table host -> last bind), kept for `..._witness_unfixed`
